@@ -5,6 +5,7 @@ import RModel.Props.C19d
 import RModel.Props.C19e
 import RModel.Props.C19f
 import RModel.Props.C19g
+import RModel.Props.C19h
 /-
   C19 — Machine-readable output is one well-formed, schema-conformant document.
   (property theorems only; the model is Model/Output.lean, the tables are Gen/Bindings.lean and Gen/OutputShapes.lean)
@@ -22,7 +23,7 @@ import RModel.Props.C19g
   {no failure, failure at each fallible site of the handler}; the conformance statements range over
   command × {matches, none} × {renames, none} (`docScenarios`).
   All statements are Boolean evaluations of that finite table, closed by kernel evaluation (`decide +kernel`) in the part
-  modules Props/C19a … C19g (namespace `C19.Part`, same statements, with the non-vacuity examples) so that lake runs them
+  modules Props/C19a … C19h (namespace `C19.Part`, same statements, with the non-vacuity examples) so that lake runs them
   in parallel; every theorem below restates its statement in full and is closed by the part's theorem.
 
     shapeMismatch c := (c == .history && !Gen.vscodeHistoryUnwrapsEntries) || (c == .status && !Gen.vscodeStatusDeclaresPendingPlan)
@@ -72,7 +73,7 @@ theorem error_rows_print_the_error_document :
 /-- the recorded instance: `renamify undo nosuch --output json` -/
 theorem error_document_undo :
     outcome { cmd := .undo, json := true, quiet := false, dryRun := false, yes := false, preview := false, noRegex := false,
-              planEmpty := false, failAt := some 0 }
+              commit := false, planEmpty := false, failAt := some 0 }
       = some { stdout := [errorDoc], stderrSites := 1, exitZero := false, performed := [], failed := true } :=
   Part.error_document_undo
 
@@ -181,6 +182,15 @@ theorem replace_applies :
   Part.replace_applies
 
 /-! ### the sources outside the handlers are as the model assumes -/
+
+/-- Nothing else can reach our stdout: every child process of the non-test core and CLI sources is run with `.output()`
+    (captured) or has its stdout redirected — a `.status()` / `.spawn()` child would write its own messages in front of
+    the document, as `git commit` did under `replace --commit` until 684ddcb; and every call of the error-document emitter
+    in main.rs is directly followed by the exit of the process (one that returns lets a caller report the failure again:
+    two documents). -/
+theorem no_child_inherits_stdout :
+    (Gen.childProcessSites.all fun c => c.2.2.2.1 == n!"output" || c.2.2.2.2) = true
+    ∧ Gen.unpairedErrorDocCalls = [] := Part.no_child_inherits_stdout
 
 /-- Every stdout emission site of the core library outside `RENAMIFY_DEBUG_*` guards is one of the known ones, and the
     confirmation prompt of `rename_operation` is not among them any more (it goes to stderr). -/
